@@ -26,6 +26,11 @@ func c07Queue(name, parent string, active rs.ResourceName) *rs.QueueAttributes {
 		vr.Assume(s.Deserved >= -1)
 		vr.Assume(s.MaxAllowed >= -1)
 		vr.Assume(s.AllocatedNotPreemptible <= s.Allocated)
+		// reachable states (C08): allocation within the limit, non-preemptible allocation within deserved quota
+		vr.Assume(s.MaxAllowed == -1 || s.Allocated <= s.MaxAllowed)
+		vr.Assume(s.Deserved == -1 || s.AllocatedNotPreemptible <= s.Deserved)
+		// C09 lower bound: fair share >= min(deserved, request) and request >= allocated
+		vr.Assume(s.Deserved == -1 || s.FairShare >= s.Deserved || s.FairShare >= s.Allocated)
 	}
 	return q
 }
@@ -62,10 +67,11 @@ func c07OverDeservedOrFair(s *rs.ResourceShare, remaining float64) bool {
 // VerifC07_Reclaim: the real CanReclaimResources + Reclaimable decide a reclaim of 1..2 victims
 // from one reclaimee queue; tree A: two sibling top queues (reclaimer R, reclaimee S); tree B:
 // reclaimer R under parent P, reclaimee S a top-level sibling of P.
-// BOUND: one resource dimension at a time; all quantities integers < 2^12 (-1 = unlimited for deserved/limit); 1..2 victims; saturation multiplier 1 or 2
-// ASSUME: reachable queue states: 0 <= non-preemptible <= allocated, fair share >= 0, children's allocation <= parent's, victims' resources <= reclaimee's allocation
+// BOUND: one resource dimension at a time (quick: GPU only; thorough: each of cpu, memory, GPU); all quantities integers < 2^12 (-1 = unlimited for deserved/limit); 1 victim (quick) / 1..2 victims (thorough); saturation multiplier 1 (quick) / 1 or 2 (thorough)
+// ASSUME: reachable queue states: 0 <= non-preemptible <= allocated, allocated <= limit and non-preemptible <= deserved where limited (C08), fair share >= 0, child's allocation and fair share <= parent's (C09), victims' resources <= reclaimee's allocation
 func VerifC07_Reclaim() {
-	active := rs.AllResources[vr.Choose("resource", 3)]
+	// quick: GPU dimension only (the code treats the three resources by one loop); thorough: all three
+	active := rs.AllResources[2-vr.Choose("resource", vr.Bound("resources", 1, 3))]
 	tree := vr.Choose("tree", 2)
 	queues := map[common_info.QueueID]*rs.QueueAttributes{}
 	var R, S, P *rs.QueueAttributes
@@ -80,12 +86,14 @@ func VerifC07_Reclaim() {
 		queues[P.UID] = P
 		vr.Assume(R.ResourceShare(active).Allocated <= P.ResourceShare(active).Allocated)
 		vr.Assume(R.ResourceShare(active).AllocatedNotPreemptible <= P.ResourceShare(active).AllocatedNotPreemptible)
+		// children divide their parent's fair share (C09)
+		vr.Assume(R.ResourceShare(active).FairShare <= P.ResourceShare(active).FairShare)
 	}
 	queues[R.UID], queues[S.UID] = R, S
 	req := vr.AnyFloatNat("req", c07Bits)
 	vr.Assume(req > 0)
 	preemptible := vr.AnyBool("reclaimerPreemptible")
-	nv := vr.Choose("victims", 2) + 1
+	nv := vr.Choose("victims", vr.Bound("maxVictims", 1, 2)) + 1
 	var victims []*resource_info.Resource
 	var vvals []float64
 	total := 0.0
@@ -98,7 +106,7 @@ func VerifC07_Reclaim() {
 	}
 	sS := S.ResourceShare(active)
 	vr.Assume(total <= sS.Allocated)
-	mult := float64(vr.Choose("multiplier", 2) + 1)
+	mult := float64(vr.Choose("multiplier", vr.Bound("multipliers", 1, 2)) + 1)
 
 	r := New(mult)
 	info := &ReclaimerInfo{Name: "j", Namespace: "ns", Queue: R.UID, IsPreemptable: preemptible, RequiredResources: c07Res(active, req)}
